@@ -81,31 +81,21 @@ inductive Average
 deriving DecidableEq, Repr
 
 /-- `get_average_f1_score(labels_true, labels_pred, average)`.
-    For `weighted` the weights are the row sums of the confusion matrix (number of counted samples per
-    true label). -/
+    For `weighted` the weights are `np.unique(labels_true[labels_true >= 0], return_counts=True)`: the counts of
+    the true labels over *all* samples with a non-negative true label, also those whose prediction is negative
+    and which the confusion matrix ignores (the repository's own test pins this). -/
 def averageF1 (t p : List Int) (a : Average) : Except PyErr Rat :=
   match a with
   | .micro => accuracy t p
   | .macro => (f1Scores t p).map fun s => rsum s.f1 / (s.f1.length : Rat)
   | .weighted => do
-      let c ← confusion t p
-      let s := scoresOf c
-      let k := c.length
-      let counts := tab k fun i => (((List.range k).map fun j => cell c i j).sum : Nat)
-      let tot := counts.sum
-      pure (rsum (tab k fun i => s.f1.getD i 0 * (counts.getD i 0 : Rat)) / (tot : Rat))
+      let s ← f1Scores t p
+      let tt := t.filter (0 ≤ ·)
+      let k := s.f1.length
+      let counts := tab k fun i => (tt.filter (· == (i : Int))).length
+      pure (rsum (tab k fun i => s.f1.getD i 0 * (counts.getD i 0 : Rat)) / (tt.length : Rat))
   | .other => do
       let _ ← f1Scores t p
       .error .valueError
-
-/-- the weighted average as the pinned code computed it: weights are the counts of the true labels over
-    *all* samples with a non-negative true label, also those whose prediction is negative and which the
-    confusion matrix ignores (kept for the witness `SkNet.C13.pinned_weighted_f1_ne_confusion`). -/
-def pinnedWeightedF1 (t p : List Int) : Except PyErr Rat := do
-  let s ← f1Scores t p
-  let tt := t.filter (0 ≤ ·)
-  let k := s.f1.length
-  let counts := tab k fun i => (tt.filter (· == (i : Int))).length
-  pure (rsum (tab k fun i => s.f1.getD i 0 * (counts.getD i 0 : Rat)) / (tt.length : Rat))
 
 end SkNet.ClassMetrics
